@@ -37,11 +37,6 @@ channel from `p` on satisfies `|peak / trough| ≤ 1.5` -/
 def WeaklyPositive (T : Nat) (w : Wave) (c p q : Nat) : Prop :=
   0 < smp w c p ∧ IsFirstExtremum w c (-1) p T q ∧ 2 * |smp w c p| ≤ 3 * |smp w c q|
 
-/-- Input class of finding F21: a positive extremum at `(c, p)` after which the trace never falls
-below two thirds of it (e.g. a positive peak on the last sample). -/
-def StaysHigh (T : Nat) (w : Wave) (c p : Nat) : Prop :=
-  0 < smp w c p ∧ ∀ t, p ≤ t → t < T → 2 * smp w c p ≤ 3 * smp w c t
-
 /-- the trace is back within half of the peak value `v` at the sample value `x` -/
 def WithinHalf (v x : ℚ) : Prop := if 0 < v then x < v / 2 else v / 2 < x
 
